@@ -590,7 +590,14 @@ func build(c *Cfg, path string, sys *Sys, ld *loader) (sto blobserver.Storage, c
 			return nil, false, false, err
 		}
 		cacheBytes := int64(c.optInt("cache", 1<<30))
-		cache := memory.NewCache(cacheBytes)
+		var cache blobserver.Storage = memory.NewCache(cacheBytes)
+		if c.Opt["gatecache"] != "" {
+			// a non-evicting gate store as cache, so that schedules can park the cache fill
+			g := gate.NewStorage(path+"/cache", env.D.mem(path+"/cache"), env.P, env.L)
+			g.Rank = env.Rank
+			sys.Gates[path+"/cache"] = g
+			cache = g
+		}
 		cp := "/" + path + "/cache/"
 		ld.pref[cp] = cache
 		s, err := blobserver.CreateStorage("proxycache", ld, jsonconfig.Obj{
